@@ -463,6 +463,15 @@ def k7_missing_key_raises(core, rep):
            f'ValueStore.__getitem__ returns {[unparse(r.value) for r in rets]} instead of self.values[{key}]', _w(f))
     handlers = [h for t in ast.walk(f.node) if isinstance(t, ast.Try) for h in t.handlers]
     ok_h = bool(handlers)
+    if not handlers:
+        # the other spelling: `if key not in self.values: raise UnmetDependency(key)` before the read
+        g0 = f.cfg
+        absent_txt, present_txt = f'{key} not in self.values', f'{key} in self.values'
+        raises0 = [n for n in g0.nodes if n.kind == 'stmt' and isinstance(n.ast, ast.Raise) and isinstance(n.ast.exc, ast.Call) and call_name(n.ast.exc) == 'UnmetDependency'
+                   and [unparse(a) for a in n.ast.exc.args] == [key]
+                   and ((absent_txt, True) in g0.branch_facts(n) or (present_txt, False) in g0.branch_facts(n))]
+        rets0 = [n for n in g0.nodes if n.kind == 'stmt' and isinstance(n.ast, ast.Return)]
+        ok_h = bool(raises0) and bool(rets0) and all((absent_txt, False) in g0.branch_facts(n) or (present_txt, True) in g0.branch_facts(n) for n in rets0)
     for h in handlers:
         raises = [b for b in ast.walk(h) if isinstance(b, ast.Raise)]
         g = CFG(ast.FunctionDef(name='h', args=f.node.args, body=h.body, decorator_list=[], lineno=h.lineno, col_offset=0), f.rel)
@@ -849,7 +858,15 @@ def k14_solution_lists_all(core, rep):
         conds = [n for b in body for n in ast.walk(b) if isinstance(n, ast.If)]
         only_section = all(len(c.body) == 1 and isinstance(c.body[0], ast.Assign) and not c.orelse for c in conds)
         rep.ob('K14', 'no-skip', not skips and only_section, 'to_config() skips some stored values', _w(f))
-        writes = [n for b in body for n in ast.walk(b) if isinstance(n, ast.Assign) and isinstance(n.targets[0], ast.Subscript) and isinstance(n.value, ast.Call) and call_name(n.value) == 'to_string']
+        # the text may be kept in a local first (`text = field.to_string(value)`), assigned once inside the loop
+        once_ = {}
+        for b in body:
+            for n in ast.walk(b):
+                if isinstance(n, ast.Assign) and len(n.targets) == 1 and isinstance(n.targets[0], ast.Name):
+                    once_.setdefault(n.targets[0].id, []).append(n.value)
+        def _val(e):
+            return once_[e.id][0] if isinstance(e, ast.Name) and len(once_.get(e.id, ())) == 1 else e
+        writes = [n for b in body for n in ast.walk(b) if isinstance(n, ast.Assign) and isinstance(n.targets[0], ast.Subscript) and isinstance(_val(n.value), ast.Call) and call_name(_val(n.value)) == 'to_string']
         rep.ob('K14', 'writes-to_string-of-the-value', len(writes) == 1, 'to_config() does not store field.to_string(value) for each value', _w(f))
     sol = core.func(core.solver.rel, core.solver.name, 'solution')
     rets = [r for r in ast.walk(sol.node) if isinstance(r, ast.Return)]
@@ -1572,7 +1589,11 @@ def k22_solution_agreement(core, rep):
         if isinstance(arg, ast.Name):
             asg = [x for x in ast.walk(rf.node) if isinstance(x, ast.Assign) and any(isinstance(t_, ast.Name) and t_.id == arg.id for t_ in x.targets)]
             src_ = asg[0].value if len(asg) == 1 else None
-        verbatim = isinstance(src_, ast.Subscript) and isinstance(src_.value, ast.Subscript) and self_attr(src_.value.value) == '_solution'
+        base_ = src_.value if isinstance(src_, ast.Subscript) else None
+        if isinstance(base_, ast.Name):       # `section = self._solution[form_name]` kept in a local that is assigned once
+            asg2 = [x for x in ast.walk(rf.node) if isinstance(x, ast.Assign) and any(isinstance(t_, ast.Name) and t_.id == base_.id for t_ in x.targets)]
+            base_ = asg2[0].value if len(asg2) == 1 else None
+        verbatim = isinstance(src_, ast.Subscript) and isinstance(base_, ast.Subscript) and self_attr(base_.value) == '_solution'
         rep.ob('K22b', 'filler-hands-from_string-the-text-as-written', verbatim,
                f'the filler converts `{unparse(src_, 70) if src_ is not None else "?"}` instead of the solution text itself: what is read back is not what was written (normalised, stripped or re-cased text)', _w(rf, st[0]))
     # K22d every section is interpreted by a fresh instance of the class the recorded year maps its name to
